@@ -26,6 +26,18 @@ def build_world(edges, items_spec):
     diseases = []
     for i, anns in enumerate(items_spec):
         al = [SimpleHpoDiseaseAnnotation(TermId.from_curie(c), 1 if present else 0, 1, (), ()) for c, present in anns]
+        if i % 3 == 1 and len(al) >= 2:
+            # the item is built with OTHER annotations and its collection is edited afterwards (the caller owns a list it passed in and
+            # may go on working with what `annotations` hands out): what counts is what the item holds when the IC is computed
+            decoy = SimpleHpoDiseaseAnnotation(al[0].identifier, 0 if al[0].is_present else 1, 1, (), ())
+            d = SimpleHpoDisease(TermId.from_curie(f'OMIM:{100000 + i}'), f'd{i}', [decoy] + al[:1], ())
+            live = d.annotations
+            if isinstance(live, list):
+                del live[0]
+                live[0] = al[0]
+                live.extend(al[1:])
+                diseases.append(d)
+                continue
         diseases.append(SimpleHpoDisease(TermId.from_curie(f'OMIM:{100000 + i}'), f'd{i}', al, ()))
     return onto, SimpleHpoDiseases(diseases, 'v2')
 
